@@ -106,6 +106,16 @@ def run_generic(E, case, prop, fam, forking=True):
     return r
 
 
+def raises_result(E, inp, prop, sig, case, e, t0):
+    """the code under test raised on valid input: a candidate 'fails instead of returning', to be confirmed by the replay"""
+    res_, m = solve_exists(inp.pre, True)
+    return {"verdict": "sat", "solver_s": 0.0, "symex_s": time.time() - t0, "n_queries": 1, "obligations": 0, "failed_obligations": [],
+            "witnesses": {}, "encoded": sorted(E.encoded),
+            "candidates": [{"signature": f"{prop}:raises:{type(e).__name__}:{sig}", "case": case,
+                            "inputs": jsonable(inp.eval(m)) if m is not None else {}, "kind": "raises",
+                            "labels": [f"{type(e).__name__}: {str(e)[:200]}"]}]}
+
+
 def fix_nans(conc):
     """json round trip turns NaN into None: undo"""
     out = {}
